@@ -59,6 +59,14 @@ ASSUMPTIONS = [
     'globals, maxStatements, the whole options argument); a member that is present has its documented type - debug a bool, logFn / '
     'fetchFn callables. An explicit "logFn": None is outside the domain (the include statement and the library tolerate it, the '
     'call wrapper of runtime.py:246 would call it in debug mode: TypeError)',
+    'host boundary (streams host-failure, host-fetch): a host function may fail with ANY Exception (sub)class, with or without a message, '
+    'whatever its str() is - except that str(exc) itself raising is outside for now: the unchanged handler formats the exception outside '
+    'any try (runtime.py:246-247), so in debug mode with a logFn a statement-level call lets the exception of __str__ escape; reported as '
+    'candidate finding F34 (probes are notes in the evidence and become witnesses once the finding is listed). A fetchFn answers a str '
+    '(doc/options.md: rtype str; any str - empty, blank, a str subclass), None, or raises; other answer types (bytes, numbers, lists of '
+    'non-strings) are outside the domain (TypeError from parse_script escapes at statement level). Whether a byte order mark in front of '
+    'a fetched text is script text is not a matter of error containment (the include may reject it as a syntax error or drop it). The '
+    'exception of a failing logFn coming back to the host that supplied it is not counted (it is only required that nothing ELSE escapes)',
 ]
 TRUSTED = ['harness/props/C05.py: operand/argument pools, the reference reading of the operator block (py_block) and of the wrapper '
            '(callee outcome measured by calling the library function directly)']
@@ -88,7 +96,13 @@ LEVEL_TEXT = ('Theorems (Lean 4, for ALL operands, heaps incl. cyclic ones, recu
               'configuration: whatever was parsed 16 frames deeper executes without RecursionError, default and tightest limit, every '
               'expression site, late-nesting expressions of every operator class + wide scripts) and hostile-text (format-string / '
               'template / control / Unicode text in the offending line and URL of a bad include and in every failing or logging '
-              'statement: a bad include raises BareScriptParserError with the same description, line and column as with neutral text).')
+              'statement: a bad include raises BareScriptParserError with the same description, line and column as with neutral text), '
+              'host-failure (host functions / urlFn failing with every builtin exception class without a message, every kind of '
+              'message, custom __str__, unusual signatures, the in-script MemoryError(), at every position of the call x host '
+              'configuration x kind of logFn x re-use of the options: contained, null, identical to the twin that returns null / fails '
+              'with a plain ValueError, one failure line iff debug and logFn; statement-level outcomes also against HostPy.wrapCall) and '
+              'host-fetch (what a fetchFn answers: empty / blank / BOM / comment-only / broken text, str subclass, None, raising, wrong '
+              'signature, at every position of an include and under systemFetch, histories on shared options).')
 LEVEL_NOTE = ('Trusted: Lean kernel; correspondence harness (pools, reference reading of the block and of the wrapper). Modelled not '
               'verified: CPython int/float arithmetic, libm pow, datetime/timedelta, json encoder failure modes, str(int) digit '
               'limit (all parameters or explicit cases of BareModel/HostPy.lean, sampled by stream binop-host). Library function '
@@ -106,17 +120,26 @@ CORPUS = os.path.join(fw.VERIF, 'harness', 'corpus', 'C05.jsonl')
 # running the implementation: anything but the two documented exceptions is an ESCAPE
 # ---------------------------------------------------------------------------------------------------------------------
 
+def exc_text(exc):
+    """str(exc) - the harness itself must survive an exception whose __str__ raises or answers a non-string"""
+    try:
+        text = str(exc)
+    except Exception as inner:  # pylint: disable=broad-except
+        return f'<str() of {type(exc).__name__} raised {type(inner).__name__}>'
+    return text
+
+
 def guarded(mods, fn):
     try:
         return ('ok', fn())
     except mods['runtime'].BareScriptRuntimeError as exc:
-        return ('rt', str(exc))
+        return ('rt', exc_text(exc))
     except mods['parser'].BareScriptParserError as exc:
-        return ('parser', str(exc).split('\n', 1)[0])
+        return ('parser', exc_text(exc).split('\n', 1)[0])
     except (KeyboardInterrupt, SystemExit):
         raise
     except BaseException as exc:  # pylint: disable=broad-except
-        return ('escape', type(exc).__name__, str(exc)[:160])
+        return ('escape', type(exc).__name__, exc_text(exc)[:160])
 
 
 # ---------------------------------------------------------------------------------------------------------------------
@@ -664,15 +687,15 @@ def callee_outcome(mods, fn, specs, debug, cfg=None):
     try:
         out = ('ret', fn(args, options))
     except mods['runtime'].BareScriptRuntimeError as exc:
-        out = ('rt', str(exc))
+        out = ('rt', exc_text(exc))
     except mods['parser'].BareScriptParserError as exc:
-        out = ('parser', str(exc).split('\n', 1)[0])
+        out = ('parser', exc_text(exc).split('\n', 1)[0])
     except mods['value'].ValueArgsError as exc:
-        out = ('args', str(exc), exc.return_value)
+        out = ('args', exc_text(exc), exc.return_value)       # (a message that cannot be built: the wrapped run shows what the runtime does)
     except (KeyboardInterrupt, SystemExit):
         raise
     except Exception as exc:  # pylint: disable=broad-except
-        out = ('host', type(exc).__name__, str(exc))
+        out = ('host', type(exc).__name__, exc_text(exc))
     return out, log
 
 
@@ -1758,11 +1781,11 @@ def parser_error_attrs(mods, text, files):
     except mods['parser'].BareScriptParserError as exc:
         return ['parser', exc.error, exc.line_number, exc.column_number, len(exc.line)]
     except mods['runtime'].BareScriptRuntimeError as exc:
-        return ['rt', str(exc)[:80]]
+        return ['rt', exc_text(exc)[:80]]
     except (KeyboardInterrupt, SystemExit):
         raise
     except BaseException as exc:  # pylint: disable=broad-except
-        return ['escape', type(exc).__name__, str(exc)[:120]]
+        return ['escape', type(exc).__name__, exc_text(exc)[:120]]
     return ['ok']
 
 
@@ -1804,6 +1827,889 @@ def stream_hostile(ctx, mods, n, name='hostile-text'):
             bad = twin_failure(mods, spec)
             if bad is not None:
                 ctx.witness('error-depends-on-literal-text', {'kind': 'hostile-twin', 'spec': spec, 'text': text, 'files': files}, bad[0], bad[1])
+
+
+# ---------------------------------------------------------------------------------------------------------------------
+# host boundary (streams host-failure, host-fetch): what the HOST's own functions answer is an input too.
+#
+# The property quantifies over every host function reachable from a script - functions put into the globals, the
+# fetchFn / logFn / urlFn members of the options - and over every way in which such a function can answer: any str
+# (the empty one, blank ones, a byte order mark, a str subclass), None, any exception class, raised with or without
+# a message, with a message that is empty / blank / several lines / not text, by a callable of any signature.  The
+# error HANDLERS of the runtime run on these answers (the call wrapper formats the exception, the include statement
+# looks at the fetched text) and sit OUTSIDE the try-block they belong to: whatever goes wrong in them escapes at
+# statement level and is swallowed by the caller's wrapper everywhere else - so every case is run at every POSITION
+# (top-level statement of every kind, operand, argument, script function, included file, callback, data expression,
+# evaluate_expression with the function in globals or in locals) and under every host configuration
+# (debug True/False/absent x logFn supplied/absent x kinds of logFn), once or several times on the same options.
+#
+# Oracles (implementation side; the inputs are host objects, which the Lean model cannot express - only the callee
+# OUTCOME of a statement-level call is sent to HostPy.wrapCall):
+#   * nothing but the documented exceptions escapes;
+#   * a failing call is a call that returned null: outcome, globals and the script's own log lines are those of the
+#     twin run in which the same function returns null (direct calls), and of the twin in which it fails with a plain
+#     ValueError('twin failure') (all positions);
+#   * it is reported exactly once iff debug mode and a logFn, naming the function;
+#   * a second / third run on the same options gives the same answer;
+#   * include: a fetchFn that answers None or raises => BareScriptRuntimeError 'Include of "url" failed'; text that does
+#     not parse => BareScriptParserError; any other str, the empty one included, is executed (nothing to execute =>
+#     nothing happens) and the statements after the include run.
+# ---------------------------------------------------------------------------------------------------------------------
+
+class StrEmptyError(Exception):
+    def __str__(self):
+        return ''
+
+
+class StrMultiError(Exception):
+    def __str__(self):
+        return 'first line\nsecond line\n'
+
+
+class StrBlankFirstError(Exception):
+    def __str__(self):
+        return '\n\nthird line'
+
+
+class StrSpaceError(Exception):
+    def __str__(self):
+        return '   '
+
+
+class StrRaisesError(Exception):
+    def __str__(self):
+        raise RuntimeError('str boom')
+
+
+class StrNonStrError(Exception):
+    def __str__(self):
+        return None
+
+
+class ReprRaisesError(Exception):
+    def __repr__(self):
+        raise RuntimeError('repr boom')
+
+
+class NoSuperInitError(Exception):
+    def __init__(self, *args):      # pylint: disable=super-init-not-called
+        self.detail = args
+
+
+class SlotsError(Exception):
+    __slots__ = ()
+
+
+class BoolRaisesError(Exception):
+    def __bool__(self):
+        raise RuntimeError('bool boom')
+
+
+class EqRaisesError(Exception):
+    def __eq__(self, other):
+        raise RuntimeError('eq boom')
+    __hash__ = Exception.__hash__
+
+
+class ArgsOnlyError(Exception):
+    """a message-less exception that carries data"""
+    def __init__(self, code=0):
+        super().__init__()
+        self.code = code
+
+
+class HostError(Exception):
+    pass
+
+
+class LogFnError(Exception):
+    """raised by a logFn of the host"""
+
+
+class StrSub(str):
+    """a str subclass answered by a host function"""
+
+
+CUSTOM_EXC = {c.__name__: c for c in (StrEmptyError, StrMultiError, StrBlankFirstError, StrSpaceError, StrRaisesError, StrNonStrError,
+                                      ReprRaisesError, NoSuperInitError, SlotsError, BoolRaisesError, EqRaisesError, ArgsOnlyError, HostError)}
+STR_UNSAFE = ('StrRaisesError', 'StrNonStrError')           # str(exc) itself raises
+PASS_THROUGH = ('BareScriptRuntimeError', 'SubRuntimeError')
+SPECIAL_ARGS = {'UnicodeDecodeError': ['utf-8', ['b', 'x'], 0, 1, 'bad byte'], 'UnicodeEncodeError': ['utf-8', 'x', 0, 1, 'bad char'],
+                'UnicodeTranslateError': ['x', 0, 1, 'bad char']}
+MESSAGE_ARGS = [[], [''], [' '], ['\n'], ['\n\n'], ['a\nb'], ['\n\nx'], ['a\r\nb\r\n'], ['\u2028'], ['\x0c'], ['{0} %s {x} %(a)d {'], ['\ufeff'], [None],
+                [0], [1, 2], [['b', 'by']], ['m' * 3000], ['msg'], ['', ''], [[]]]
+HB_EXTRA = [REF_ON, REF_OFF] + EXTRA_CONFIGS
+LOG_KINDS = ['list', 'list', 'returns', 'raises', 'sig0']    # raises / sig0: a logFn that fails itself (its OWN exception coming back is not counted)
+
+
+def builtin_exception_names():
+    import builtins                 # pylint: disable=import-outside-toplevel
+    names = []
+    for name in sorted(vars(builtins)):
+        cls = getattr(builtins, name)
+        if isinstance(cls, type) and issubclass(cls, Exception) and cls.__name__ == name and 'Group' not in name:
+            names.append(name)
+    return names
+
+
+def make_exc(spec, mods):
+    """['exc', class name, args] -> a fresh exception instance"""
+    import builtins                 # pylint: disable=import-outside-toplevel
+    _, name, args = spec
+    args = [bytes(a[1], 'latin-1') if isinstance(a, list) and a[:1] == ['b'] else a for a in args]
+    if name in CUSTOM_EXC:
+        return CUSTOM_EXC[name](*args)
+    if name == 'BareScriptRuntimeError':
+        return mods['runtime'].BareScriptRuntimeError(*args)
+    if name == 'SubRuntimeError':
+        return type('SubRuntimeError', (mods['runtime'].BareScriptRuntimeError,), {})(*args)
+    if name == 'JSONDecodeError':
+        return json.JSONDecodeError('bad json', 'doc', 0)
+    if name == 're.error':
+        return re.error(*(args or ['bad pattern']))
+    if name == 'ExceptionGroup':
+        return ExceptionGroup(args[0] if args else '', [ValueError('inner'), KeyError()])    # noqa: F821  pylint: disable=undefined-variable
+    if name == 'Noted':
+        exc = RuntimeError(*args)
+        exc.add_note('a note\non two lines')
+        return exc
+    return getattr(builtins, name)(*args)
+
+
+def safe_str(exc):
+    try:
+        s = str(exc)
+        return s if isinstance(s, str) else None
+    except Exception:  # pylint: disable=broad-except
+        return None
+
+
+def exc_pool():
+    """every builtin Exception class raised WITHOUT a message, the common ones with every kind of message, the custom ones"""
+    bare = [['exc', n, list(SPECIAL_ARGS.get(n, []))] for n in builtin_exception_names()]
+    bare += [['exc', n, []] for n in CUSTOM_EXC] + [['exc', 'JSONDecodeError', []], ['exc', 're.error', []], ['exc', 'ExceptionGroup', []],
+                                                    ['exc', 'Noted', []], ['exc', 'ArgsOnlyError', [7]]]
+    msgs = [['exc', n, a] for n in ('RuntimeError', 'ValueError', 'KeyError', 'OSError', 'MemoryError', 'HostError', 'NoSuperInitError', 'Exception',
+                                    'AssertionError', 'StopIteration', 'IndexError', 'LookupError', 're.error', 'ExceptionGroup', 'Noted')
+            for a in MESSAGE_ARGS if not (n == 're.error' and (not a or not isinstance(a[0], str)))
+            and not (n == 'ExceptionGroup' and (not a or not isinstance(a[0], str)))]
+    passing = [['exc', n, [m]] for n in PASS_THROUGH for m in ('host said stop', '', 'two\nlines')]
+    return bare, msgs, passing
+
+
+def make_hostfn(fspec, mods):
+    """['raise', exc spec] | ['raise_ctx', exc spec] | ['raise_from', exc spec] | ['null'] | ['sig', kind] -> the host function `hostFn`"""
+    kind = fspec[0]
+    if kind == 'raise':
+        def hostFn(args, options):              # pylint: disable=invalid-name,unused-argument
+            raise make_exc(fspec[1], mods)
+    elif kind == 'raise_ctx':                   # raised while another exception is being handled (__context__ set)
+        def hostFn(args, options):              # pylint: disable=invalid-name,unused-argument
+            try:
+                return {}['missing']
+            except KeyError:
+                raise make_exc(fspec[1], mods)  # pylint: disable=raise-missing-from
+    elif kind == 'raise_from':
+        def hostFn(args, options):              # pylint: disable=invalid-name,unused-argument
+            raise make_exc(fspec[1], mods) from OSError()
+    elif kind == 'null':
+        def hostFn(args, options):              # pylint: disable=invalid-name,unused-argument
+            return None
+    else:
+        sig = fspec[1]
+        if sig == 'zero':
+            def hostFn():                       # pylint: disable=invalid-name
+                return 1
+        elif sig == 'one':
+            def hostFn(args):                   # pylint: disable=invalid-name,unused-argument
+                return 1
+        elif sig == 'three':
+            def hostFn(args, options, more):    # pylint: disable=invalid-name,unused-argument
+                return 1
+        elif sig == 'kwonly':
+            def hostFn(args, *, options):       # pylint: disable=invalid-name,unused-argument
+                return 1
+        elif sig == 'builtin':
+            hostFn = len                        # pylint: disable=invalid-name
+        elif sig == 'callobj':                  # an object whose __call__ fails without a message
+            class Callable:                     # pylint: disable=too-few-public-methods
+                def __call__(self, args, options):
+                    raise RuntimeError
+            hostFn = Callable()                 # pylint: disable=invalid-name
+        elif sig == 'partial':
+            import functools                    # pylint: disable=import-outside-toplevel
+
+            def inner(flag, args, options):     # pylint: disable=unused-argument
+                raise MemoryError
+            hostFn = functools.partial(inner, 1)            # pylint: disable=invalid-name
+        elif sig == 'unpack':                   # a host function that trusts its argument list
+            def hostFn(args, options):          # pylint: disable=invalid-name,unused-argument
+                first, second, third = args     # pylint: disable=unused-variable
+                return first
+        elif sig == 'assert':
+            def hostFn(args, options):          # pylint: disable=invalid-name,unused-argument
+                assert not args
+                return 1
+        elif sig == 'next':
+            def hostFn(args, options):          # pylint: disable=invalid-name,unused-argument
+                return next(iter(()))
+        else:
+            raise ValueError(fspec)
+    return hostFn
+
+
+SIG_KINDS = ['zero', 'one', 'three', 'kwonly', 'builtin', 'callobj', 'partial', 'unpack', 'assert', 'next']
+MEM_COUNTS = ['1e+15', '2e+15', '1e+16', '1e+18', '4e+18']        # 'ab' * n: refused at once (beyond the address space), MemoryError()
+
+# positions of the failing call: @C@ = the call, @F@ = the failing function as a value, @N@ = its name in the log line
+HF_POS = [
+    {'id': 'assign', 'body': 'rr = @C@', 'names': ['@N@'], 'model': True},
+    {'id': 'exprstmt', 'body': '@C@', 'names': ['@N@']},
+    {'id': 'return', 'body': 'return @C@', 'names': ['@N@']},
+    {'id': 'if', 'body': 'if @C@:\n    rr = 1\nelse:\n    rr = 2\nendif', 'names': ['@N@']},
+    {'id': 'elif', 'body': 'if false:\n    rr = 1\nelif @C@:\n    rr = 2\nelse:\n    rr = 3\nendif', 'names': ['@N@']},
+    {'id': 'while', 'body': 'while @C@:\n    rr = 1\n    break\nendwhile', 'names': ['@N@']},
+    {'id': 'whilebody', 'body': 'ii = 0\nwhile ii < 3:\n    rr = @C@\n    ii = ii + 1\nendwhile', 'names': ['@N@'] * 3},
+    {'id': 'for', 'body': 'for vv in @C@:\n    rr = vv\nendfor', 'names': None},
+    {'id': 'forbody', 'body': 'for vv in arrayNew(1, 2):\n    rr = @C@\nendfor', 'names': ['@N@'] * 2},
+    {'id': 'jumpif', 'body': 'jumpif (@C@) lab\nrr = 1\nlab:', 'names': ['@N@']},
+    {'id': 'arg', 'body': 'rr = systemType(@C@)', 'names': ['@N@']},
+    {'id': 'pair', 'body': 'rr = arrayNew(@C@, 1, @C@)', 'names': ['@N@'] * 2},
+    {'id': 'nestedarg', 'body': 'rr = arrayLength(arrayNew(objectNew("k", @C@)))', 'names': ['@N@']},
+    {'id': 'binary', 'body': 'rr = @C@ + 1', 'names': ['@N@']},
+    {'id': 'binaryr', 'body': 'rr = "x" + @C@', 'names': ['@N@']},
+    {'id': 'not', 'body': 'rr = !@C@', 'names': ['@N@']},
+    {'id': 'neg', 'body': 'rr = -@C@', 'names': ['@N@']},
+    {'id': 'and', 'body': 'rr = @C@ && 1', 'names': ['@N@']},
+    {'id': 'andr', 'body': 'rr = 1 && @C@', 'names': ['@N@']},
+    {'id': 'or', 'body': 'rr = @C@ || "x"', 'names': ['@N@']},
+    {'id': 'group', 'body': 'rr = (@C@)', 'names': ['@N@']},
+    {'id': 'cmp', 'body': 'rr = @C@ == null', 'names': ['@N@']},
+    {'id': 'ifcond', 'body': 'rr = if(@C@, 1, 2)', 'names': ['@N@']},
+    {'id': 'ifbranch', 'body': 'rr = if(true, @C@, 2)', 'names': ['@N@']},
+    {'id': 'after', 'body': 'r0 = @C@\nrr = arrayGet(arrayNew(5), 0)\nr2 = @C@\nr3 = arrayGet(1)\nr4 = @C@', 'names': ['@N@', '@N@', 'arrayGet', '@N@']},
+    {'id': 'infn', 'body': 'function sf(aa):\n    bb = @C@\n    return systemType(bb)\nendfunction\nrr = sf(1)', 'names': ['@N@']},
+    {'id': 'infnret', 'body': 'function sf():\n    return @C@\nendfunction\nrr = sf()', 'names': ['@N@']},
+    {'id': 'infn2', 'body': 'function s1():\n    return @C@\nendfunction\nfunction s2():\n    return arrayNew(s1(), s1())\nendfunction\nrr = s2()',
+     'names': ['@N@'] * 2},
+    {'id': 'include', 'body': "include 'lib.bare'", 'files': {'lib.bare': 'rr = @C@\nincEnd = 1\n'}, 'inc': True, 'names': ['@N@']},
+    {'id': 'includefn', 'body': "include 'lib.bare'\nrr = libFn(2)", 'inc': True, 'names': ['@N@'],
+     'files': {'lib.bare': 'function libFn(aa):\n    return arrayNew(aa, @C@)\nendfunction\n'}},
+    {'id': 'sortbody', 'body': 'function cmp(aa, bb):\n    xx = @C@\n    return aa - bb\nendfunction\nrr = arraySort(arrayNew(3, 1, 2), cmp)', 'names': None},
+    {'id': 'datacalc', 'body': "rr = dataCalculatedField(arrayNew(objectNew('a', 1)), 'b', \"@C@\")", 'names': ['@N@']},
+    {'id': 'datafilter', 'body': "rr = dataFilter(arrayNew(objectNew('a', 1), objectNew('a', 2)), \"@C@ == null\")", 'names': ['@N@'] * 2},
+    # the failing function as a VALUE: called by the library / through another name
+    {'id': 'sortfn', 'body': 'rr = arraySort(arrayNew(3, 1, 2), @F@)', 'callback': True, 'names': ['arraySort']},
+    {'id': 'indexof', 'body': 'rr = arrayIndexOf(arrayNew(1, 2), @F@)', 'callback': True, 'names': ['arrayIndexOf']},
+    {'id': 'partial', 'body': 'pp = systemPartial(@F@, 1)\nrr = pp(2)', 'callback': True, 'names': ['pp']},
+    {'id': 'fnarg', 'body': 'function sf(ff):\n    return ff(1)\nendfunction\nrr = sf(@F@)', 'callback': True, 'direct': True, 'names': ['ff']},
+    {'id': 'alias', 'body': 'gg = @F@\nrr = gg(1)', 'callback': True, 'direct': True, 'names': ['gg']},
+    # evaluate_expression
+    {'id': 'x-call', 'body': '@C@', 'expr': True, 'names': ['@N@'], 'model': True},
+    {'id': 'x-demo', 'body': "if(@C@ == null, 'null', 'other') + '-continued'", 'expr': True, 'names': ['@N@']},
+    {'id': 'x-or', 'body': '@C@ || 5', 'expr': True, 'names': ['@N@']},
+    {'id': 'x-not', 'body': '!@C@', 'expr': True, 'names': ['@N@']},
+    {'id': 'x-neg', 'body': '-(@C@)', 'expr': True, 'names': ['@N@']},
+    {'id': 'x-arg', 'body': 'systemType(@C@)', 'expr': True, 'names': ['@N@']},
+    {'id': 'x-pair', 'body': 'arrayNew(@C@, @C@)', 'expr': True, 'names': ['@N@'] * 2},
+    {'id': 'x-binary', 'body': '1 + @C@', 'expr': True, 'names': ['@N@']},
+]
+HF_POS_BY_ID = {p['id']: p for p in HF_POS}
+HF_TOP = [p['id'] for p in HF_POS if not p.get('callback')]
+TWIN_EXC = ['exc', 'ValueError', ['twin failure']]
+
+
+def hb_logfn(kind, log):
+    """kinds of logFn a host may supply"""
+    if kind == 'returns':                       # a logFn that answers something
+        def log_returns(text):
+            log.append(text)
+            return 'logged: ' + str(text)
+        return log_returns
+    if kind == 'raises':
+        def log_raises(text):
+            raise LogFnError
+        return log_raises
+    if kind == 'sig0':
+        def log_sig0():
+            return None
+        return log_sig0
+    return log.append
+
+
+def logfn_own(out):
+    """the exception of the host's OWN logFn came back to the host (the runtime called it outside any wrapper, e.g. from the
+    failure handler in debug mode): outside the domain of the property (ASSUMPTIONS), not a failure of the runtime"""
+    return out[0] == 'escape' and (out[1] == 'LogFnError' or (out[1] == 'TypeError' and 'log_sig0' in out[2]))
+
+
+def hb_options(cfg, logkind, log, globals_, **more):
+    options = dict(more)
+    if globals_ is not None:
+        options['globals'] = globals_
+    if cfg['debug'] != ABSENT:
+        options['debug'] = cfg['debug']
+    if cfg['logFn']:
+        options['logFn'] = hb_logfn(logkind, log)
+    return options
+
+
+HOST_NAMES = ['hostFn', 'hostFn', 'hostFn', 'stringUpper', 'mathAbs', 'len', 'hf', 'Host_fn9']     # also names of library functions / expression aliases
+
+
+def hf_setup(mods, fail, variant, hname='hostFn'):
+    """the failing call of a case in one of its variants ('real' | 'msg': fails with ValueError('twin failure') | 'null':
+    returns null without failing) -> (call text, function-value text, extra globals, extra options, name in the failure line)"""
+    kind = fail[0]
+    if kind in ('host', 'sig'):
+        if variant == 'real':
+            fn = make_hostfn(['sig', fail[1]] if kind == 'sig' else [fail[2] if len(fail) > 2 else 'raise', fail[1]], mods)
+        else:
+            fn = make_hostfn(['raise', TWIN_EXC] if variant == 'msg' else ['null'], mods)
+        return hname + "(1, 'a')", hname, {hname: fn}, {}, hname
+    if kind == 'mem':
+        text = {'real': f"stringRepeat('ab', {fail[1]})", 'msg': "stringRepeat('ab', 0 - 1)", 'null': "systemGlobalGet('hbUnset')"}[variant]
+        return text, None, {}, {}, 'stringRepeat'
+    if kind == 'urlfn':                         # the urlFn member of the options, called by systemFetch INSIDE the wrapper
+        if variant == 'null':
+            return "systemFetch('u')", None, {}, {'urlFn': lambda url: url, 'fetchFn': lambda req: None}, 'systemFetch'
+        exc = fail[1] if variant == 'real' else TWIN_EXC
+
+        def url_fn(url):
+            raise make_exc(exc, mods)
+        return "systemFetch('u')", None, {}, {'urlFn': url_fn, 'fetchFn': lambda req: 'text'}, 'systemFetch'
+    raise ValueError(fail)
+
+
+def hf_texts(pos, call, fval):
+    sub = lambda s: s.replace('@C@', call).replace('@F@', fval or '')     # noqa: E731
+    if pos.get('expr'):
+        return sub(pos['body']), None
+    text = "systemLog('before')\n" + sub(pos['body']) + "\nsystemLog('after')\nreturn 'done'\n"
+    return text, {k: sub(v) for k, v in pos.get('files', {}).items()}
+
+
+_PARSED = {}
+
+
+def parsed(mods, text, expr=False):
+    key = (id(mods['parser']), expr, text)
+    if key not in _PARSED:
+        if len(_PARSED) > 4000:
+            _PARSED.clear()
+        _PARSED[key] = mods['parser'].parse_expression(text) if expr else mods['parser'].parse_script(text)
+    return _PARSED[key]
+
+
+def hf_run(mods, case, variant, logkind=None, runs=1):
+    """-> [(outcome, log, canonical user globals)] of `runs` consecutive runs on the SAME options"""
+    lib = mods['library'].SCRIPT_FUNCTIONS
+    pos = HF_POS_BY_ID[case['pos']]
+    cfg = case['config']
+    call, fval, g_extra, o_extra, _ = hf_setup(mods, case['fail'], variant, case.get('name', 'hostFn'))
+    text, files = hf_texts(pos, call, fval)
+    log = []
+    g = dict(g_extra)
+    locals_ = None
+    if pos.get('expr'):
+        for name, fn in lib.items():
+            g.setdefault(name, fn)
+        if case.get('locals'):                  # the host function is a LOCAL of the expression
+            locals_ = {k: g.pop(k) for k in list(g_extra)}
+    more = dict(o_extra)
+    if files and 'fetchFn' not in more:
+        more['fetchFn'] = lambda req: files_lookup(files, req['url'])
+    options = hb_options(cfg, logkind or case.get('logkind', 'list'), log, g, maxStatements=2000, **more)
+    if case.get('noglobals'):                   # options without a 'globals' member
+        options.pop('globals', None)
+    if case.get('optnone'):                     # evaluate_expression(expr, None, locals): no options at all
+        options = None
+    model = parsed(mods, text, bool(pos.get('expr')))
+    res = []
+    for _ in range(runs):
+        del log[:]
+        if pos.get('expr'):
+            out = guarded(mods, lambda: mods['runtime'].evaluate_expression(model, options, locals_, bool(case.get('builtins', True))))
+        else:
+            out = guarded(mods, lambda: mods['runtime'].execute_script(model, options))
+        res.append((out, list(log), user_globals(g, lib, (case.get('name', 'hostFn'), 'gg', 'pp'))))     # (gg / pp hold the function itself)
+    return res
+
+
+def out_canon(out, lib):
+    return no_addr([out[0], deep(out[1], lib) if out[0] == 'ok' else out[1]])
+
+
+def fail_names(log):
+    return [FAIL_RE.match(ln).group(1) for ln in log if FAIL_RE.match(ln)]
+
+
+def hostfail_failures(mods, case):
+    """the oracles of one host-failure case -> [(oracle, expected, actual)]"""
+    lib = mods['library'].SCRIPT_FUNCTIONS
+    pos = HF_POS_BY_ID[case['pos']]
+    cfg = case['config']
+    fail = case['fail']
+    runs = hf_run(mods, case, 'real', runs=int(case.get('reuse', 1)))
+    out, log, g = runs[0]
+    if any(logfn_own(r[0]) for r in runs):
+        return []
+    if any(r[0][0] == 'escape' for r in runs):
+        esc = next(r[0] for r in runs if r[0][0] == 'escape')
+        return [('host-failure-escape', 'a value or BareScriptRuntimeError/BareScriptParserError (the failing call is null)', list(esc))]
+    bad = []
+    logs = cfg_logs(cfg) and case.get('logkind', 'list') in ('list', 'returns')
+    sees = cfg['logFn'] and case.get('logkind', 'list') in ('list', 'returns')
+    if fail[0] == 'host' and fail[1][1] in PASS_THROUGH:
+        want = ['rt', str(fail[1][2][0])]       # a documented exception raised by a host function IS the documented outcome
+        if out_canon(out, lib) != want:
+            bad.append(('documented-exception-expected', want, out_canon(out, lib)))
+        return bad
+    name = hf_setup(mods, fail, 'real', case.get('name', 'hostFn'))[4]
+    for ix, (out_k, log_k, g_k) in enumerate(runs[1:]):         # a second / third use of the same options
+        if (out_canon(out_k, lib), log_k, g_k) != (out_canon(out, lib), log, g):
+            bad.append(('reuse-after-failure', [out_canon(out, lib), log[-4:]], [ix + 2, out_canon(out_k, lib), log_k[-4:]]))
+            break
+    # the twins
+    variants = ['msg'] + (['null'] if (not pos.get('callback') or pos.get('direct')) else [])
+    for variant in variants:
+        t_out, t_log, t_g = hf_run(mods, case, variant)[0]
+        if t_out[0] == 'escape':
+            continue                            # reported by the streams that own plain failures
+        oracle = 'failure-class-changes-outcome' if variant == 'msg' else 'failure-is-null'
+        if out_canon(out, lib) != out_canon(t_out, lib):
+            bad.append((oracle, out_canon(t_out, lib), out_canon(out, lib)))
+        elif g != t_g:
+            keys = sorted(k for k in set(g) | set(t_g) if g.get(k) != t_g.get(k))
+            bad.append((oracle, {k: t_g.get(k) for k in keys}, {k: g.get(k) for k in keys}))
+        elif sees and visible(log, False) != visible(t_log, False):
+            bad.append((oracle, visible(t_log, False)[-5:], visible(log, False)[-5:]))
+        elif variant == 'msg' and len(fail_names(log)) != len(fail_names(t_log)):
+            bad.append(('failure-log-once', fail_names(t_log), fail_names(log)))
+    # the report: once per failing call, naming the function, iff debug mode and a logFn
+    names = fail_names(log)
+    if not logs and names:
+        bad.append(('no-log-without-debug', [], names))
+    if logs and pos.get('names') is not None:
+        want = [n.replace('@N@', name) for n in pos['names']]
+        if names != want:
+            bad.append(('failure-log-once', want, names))
+    if not sees and log:
+        bad.append(('config-changes-log', [], log[-4:]))
+    # the kind of logFn does not matter either
+    if case.get('logkind', 'list') != 'list':
+        p_out, _, p_g = hf_run(mods, case, 'real', logkind='list')[0]
+        if p_out[0] != 'escape' and (out_canon(out, lib), g) != (out_canon(p_out, lib), p_g):
+            bad.append(('logfn-changes-outcome', out_canon(p_out, lib), out_canon(out, lib)))
+    return bad
+
+
+def hf_measure(mods, case):
+    """the callee outcome of a statement-level case, measured by calling the function directly -> wrapCall request or None"""
+    fail = case['fail']
+    if fail[0] == 'urlfn' or (fail[0] == 'host' and (fail[1][1] in STR_UNSAFE or fail[1][1] in PASS_THROUGH)):
+        return None
+    _, _, g_extra, _, name = hf_setup(mods, fail, 'real', case.get('name', 'hostFn'))
+    fn = g_extra.get(name) or mods['library'].SCRIPT_FUNCTIONS[name]
+    args = [1, 'a'] if fail[0] != 'mem' else ['ab', float(fail[1])]
+    try:
+        fn(args, {})
+        return None
+    except mods['value'].ValueArgsError:
+        return None
+    except Exception as exc:  # pylint: disable=broad-except
+        msg = safe_str(exc)
+        if msg is None:
+            return None
+        cfg = case['config']
+        has_log = bool(cfg['logFn'])
+        return {'op': 'wrapCall', 'out': {'k': 'host', 'cls': type(exc).__name__, 'msg': msg}, 'debug': cfg_debug(cfg), 'hasLogFn': has_log,
+                'name': name, 'log': ['before'] if has_log and not HF_POS_BY_ID[case['pos']].get('expr') else []}
+
+
+def hf_cases(ctx, rng, n_random):
+    bare, msgs, passing = exc_pool()
+    cases = []
+    fails = [['host', e] for e in bare + msgs + passing] + [['sig', k] for k in SIG_KINDS] + [['mem', c] for c in MEM_COUNTS]
+    # every failure at statement level (script and expression) under the logging configuration, and under one other
+    for ix, fail in enumerate(fails):
+        for pid in ('assign', 'x-call'):
+            cases.append({'kind': 'hostfail', 'fail': fail, 'pos': pid, 'config': REF_ON})
+        cases.append({'kind': 'hostfail', 'fail': fail, 'pos': rng.choice(HF_TOP), 'config': HB_EXTRA[ix % len(HB_EXTRA)]})
+    # every position x every host configuration with a message-less failure
+    empties = [['host', ['exc', 'RuntimeError', []]], ['host', ['exc', 'MemoryError', []]], ['host', ['exc', 'StrEmptyError', []]],
+               ['host', ['exc', 'KeyError', []]], ['mem', '1e+15'], ['sig', 'callobj'], ['host', ['exc', 'StrMultiError', []]]]
+    for pix, pos in enumerate(HF_POS):
+        for cix, cfg in enumerate(HB_EXTRA):
+            fail = empties[(pix + cix) % len(empties)] if not ctx.quick or cfg in (REF_ON, REF_OFF) else rng.choice(fails)
+            if pos.get('callback') and fail[0] == 'mem':
+                fail = empties[0]
+            cases.append({'kind': 'hostfail', 'fail': fail, 'pos': pos['id'], 'config': cfg})
+    # the failing function as a LOCAL of an expression: options without 'globals', no options at all; under a library / alias name
+    for cix, cfg in enumerate(HB_EXTRA):
+        for pid in ('x-call', 'x-demo'):
+            cases.append({'kind': 'hostfail', 'fail': empties[cix % 4], 'pos': pid, 'config': cfg, 'locals': True, 'noglobals': True, 'builtins': True})
+            cases.append({'kind': 'hostfail', 'fail': empties[(cix + 1) % 4], 'pos': pid, 'config': cfg, 'name': HOST_NAMES[3 + cix % 5],
+                          'builtins': bool(cix % 2)})
+        cases.append({'kind': 'hostfail', 'fail': empties[cix % 4], 'pos': 'assign', 'config': cfg, 'name': HOST_NAMES[3 + cix % 5], 'reuse': 2})
+    cases.append({'kind': 'hostfail', 'fail': empties[0], 'pos': 'x-call', 'config': {'debug': ABSENT, 'logFn': False}, 'locals': True, 'optnone': True,
+                  'builtins': True})
+    # random combinations: failure x position x configuration x kind of logFn x re-use x raised-while-handling
+    for _ in range(n_random):
+        fail = rng.choice(fails) if rng.random() < 0.8 else ['urlfn', rng.choice(bare + msgs)]
+        pos = rng.choice(HF_POS)
+        if fail[0] == 'host' and rng.random() < 0.15:
+            fail = fail + [rng.choice(['raise_ctx', 'raise_from'])]
+        while (pos.get('callback') and fail[0] not in ('host', 'sig')) or (pos.get('inc') and fail[0] == 'urlfn'):
+            pos = rng.choice(HF_POS)
+        case = {'kind': 'hostfail', 'fail': fail, 'pos': pos['id'], 'config': rng.choice(HB_EXTRA)}
+        if rng.random() < 0.3:
+            case['reuse'] = rng.choice([2, 3])
+        if fail[0] in ('host', 'sig'):
+            hname = rng.choice(HOST_NAMES)
+            if hname != 'hostFn':
+                case['name'] = hname
+        kind = rng.choice(LOG_KINDS)
+        if kind != 'list' and case['config']['logFn']:
+            case['logkind'] = kind
+        if pos.get('expr'):
+            case['builtins'] = rng.random() < 0.5
+            if fail[0] in ('host', 'sig') and rng.random() < 0.4:
+                case['locals'] = True
+                if pos['id'] in ('x-call', 'x-or', 'x-not', 'x-neg', 'x-binary', 'x-demo') and rng.random() < 0.5:
+                    if rng.random() < 0.5:
+                        case.update(optnone=True, config={'debug': ABSENT, 'logFn': False}, builtins=True)
+                        case.pop('logkind', None)
+                    else:
+                        case.update(noglobals=True, builtins=True)
+        cases.append(case)
+    return cases
+
+
+def unsafe_here(case):
+    """str(exc) itself raises: the unchanged handler formats the exception OUTSIDE its try-block (candidate finding F34)"""
+    fail = case['fail']
+    return fail[0] in ('host', 'urlfn') and fail[1][1] in STR_UNSAFE and bool(cfg_logs(case['config']))
+
+
+HANDLER_FINDING = 'F34'
+
+
+def handler_finding_known():
+    return any(f.get('id') == HANDLER_FINDING and f.get('status') in ('known', 'fixed') for f in fw.load_findings(ID))  # listed: judged like every other case (a fixed entry suppresses nothing)
+
+
+def stream_host_failure(ctx, mods, n_random, name='host-failure'):
+    st = ctx.stream(name, 'host functions that FAIL in every way a Python callable can: every builtin Exception class raised without a message, '
+                          f'the common ones with {len(MESSAGE_ARGS)} kinds of message (none / empty / blank / newline only / several lines / CRLF / '
+                          'U+2028 / format-string text / BOM / None / numbers / bytes / 3000 characters / two arguments), custom classes whose '
+                          '__str__ answers "" / blanks / several lines / an empty first line, whose __repr__ / __bool__ / __eq__ raise, without '
+                          'super().__init__, with __slots__, with notes, exception groups, raised while handling / from another exception; '
+                          f'callables with {len(SIG_KINDS)} unusual signatures (0 / 1 / 3 parameters, keyword-only, a builtin, a callable object, '
+                          'a partial, trusting its argument list, assert, next()); the in-script message-less failure '
+                          "stringRepeat('ab', 1e+15 ...) (MemoryError()); a raising urlFn under systemFetch; BareScriptRuntimeError (sub)classes "
+                          f'raised by the host (documented outcome) x {len(HF_POS)} positions of the call (every statement kind, operands, arguments, '
+                          'script functions, included files, sort / data callbacks, the function passed as a value, evaluate_expression with '
+                          'the function in globals or locals, builtins on/off) x debug True/False/absent x logFn supplied/absent x kind of '
+                          'logFn (list.append, answering, raising / wrong signature with debug off) x 1-3 runs on the same options. Host '
+                          'objects cannot be sent to the Lean model: the callee outcome of the statement-level cases goes to HostPy.wrapCall '
+                          '(exact log line), everything else is an implementation-side oracle: no escape; same outcome / globals / own log '
+                          'lines as the twin that fails with ValueError("twin failure") and (direct calls) as the twin that returns null; '
+                          'one failure line naming the function iff debug and logFn; same answer on re-use; the kind of logFn changes '
+                          'nothing. non-trivial = the failing call was made and contained')
+    rng = ctx.rng(name)
+    cases = hf_cases(ctx, rng, n_random)
+    lib = mods['library'].SCRIPT_FUNCTIONS
+    reqs, req_ix = [], {}
+    for ix, case in enumerate(cases):
+        pos = HF_POS_BY_ID[case['pos']]
+        if pos.get('model') and ctx.driver is not None and not case.get('locals') and case.get('logkind', 'list') in ('list', 'returns'):
+            req = hf_measure(mods, case)
+            if req is not None:
+                req_ix[ix] = len(reqs)
+                reqs.append(req)
+    resps = ctx.driver.batch(reqs) if reqs else []
+    known = handler_finding_known()
+    noted = set()
+    for ix, case in enumerate(cases):
+        fail = case['fail']
+        tags = [fail[0], 'pos-' + case['pos'], cfg_tag(case['config']), 'log-' + case.get('logkind', 'list'), 'runs-' + str(case.get('reuse', 1))]
+        if fail[0] in ('host', 'urlfn'):
+            msg = safe_str(make_exc(fail[1], mods))
+            tags.append('msg-unprintable' if msg is None else 'msg-empty' if msg == '' else 'msg-blank' if not msg.strip() else
+                        'msg-multiline' if len(msg.splitlines()) > 1 else 'msg-plain')
+        if unsafe_here(case):
+            # the unchanged handler cannot format this exception: a witness only once the finding is listed
+            bad = hostfail_failures(mods, case)
+            st.case(case, nontrivial=False, tags=tags + ['str-unsafe'])
+            if bad and known:
+                ctx.witness(bad[0][0], case, bad[0][1], bad[0][2])
+            elif bad and fail[1][1] not in noted:
+                noted.add(fail[1][1])
+                ctx.notes.append(f'host-failure: a host function raising {fail[1][1]} (str(exc) itself raises) at position {case["pos"]} in debug mode with a '
+                                 f'logFn: {bad[0][0]} {bad[0][2]} - the handler of runtime.py:244-247 formats the exception outside any try: candidate '
+                                 f'finding {HANDLER_FINDING}, not counted as a violation until listed')
+            continue
+        bad = hostfail_failures(mods, case)
+        st.case(case, nontrivial=not bad, tags=tags)
+        for oracle, want, got in bad:
+            ctx.witness(oracle, case, want, got)
+        if ix in req_ix and not any(b[0] == 'host-failure-escape' for b in bad):
+            resp = resps[req_ix[ix]]
+            out, log, g = hf_run(mods, case, 'real')[0]
+            if HF_POS_BY_ID[case['pos']].get('expr'):
+                value, impl_log = (out[1] if out[0] == 'ok' else None), log
+            else:
+                value = g.get('rr')
+                impl_log = log[:-1] if log[-1:] == ['after'] else log
+            ctx.compare(name, case, no_addr({'res': {'value': value}, 'log': impl_log}),
+                        no_addr({'res': {'value': (resp.get('res') or {}).get('value', '?')}, 'log': resp.get('log')}))
+
+
+FINDING_MATCHERS[HANDLER_FINDING] = lambda w: w.get('input', {}).get('kind') == 'hostfail' and unsafe_here(w['input'])
+
+
+# ---- fetchFn ----------------------------------------------------------------------------------------------------------
+
+# what a fetchFn may answer for the included URL: (text, kind, value of incv afterwards)
+FETCH_TEXTS = [
+    ('', 'noop', None), (' ', 'noop', None), ('\t', 'noop', None), ('\n', 'noop', None), ('\r\n', 'noop', None), ('\r', 'noop', None),
+    ('\n\n\n', 'noop', None), ('   \n\t\n', 'noop', None), ('# c', 'noop', None), ('# c\n', 'noop', None), ('#', 'noop', None),
+    ('\n# c\n\n', 'noop', None), ('\x0c', 'noop', None), ('\x0b', 'noop', None), ('\u2028', 'noop', None), ('\u2029', 'noop', None),
+    ('\x85', 'noop', None), ('\xa0', 'noop', None), ('\u3000', 'noop', None), ('return 5\n', 'noop', None), ('return\n', 'noop', None),
+    ('incv = 7', 'assign', 7.0), ('incv = 7\n', 'assign', 7.0), ('incv = 7\r\n', 'assign', 7.0), ('\nincv = 7\n\n', 'assign', 7.0),
+    ('  incv = 7', 'assign', 7.0), ('incv = 7\n# c', 'assign', 7.0), ('# c\nincv = 7', 'assign', 7.0), ('incv = \\\n    7\n', 'assign', 7.0),
+    ('incw = 3\nincv = incw + 4\n', 'assign', 7.0), ("incv = stringLength('\ufeff') + 6\n", 'assign', 7.0), ('incv = 7\n\x0c', 'assign', 7.0),
+    ("incv = 7\nreturn\nincv = 8\n", 'assign', 7.0), ("incv = arrayGet(1)\n", 'assign', None), ("incv = 7 # \ufeff\n", 'bom', None),
+    ('\ufeff', 'bom', None), ('\ufeffincv = 7\n', 'bom', None), ('\ufeff\n', 'bom', None), (' \ufeff', 'bom', None),
+    ('\ufeff# c\n', 'bom', None), ('\x00', 'broken', None), ('incv = 7 \\', 'broken', None), ('incv = (1 +\n', 'broken', None),
+    ('endif\n', 'broken', None), ('function ff():\n', 'broken', None), ("include 'y.bare\n", 'broken', None), ('incv = 7\n\ufeff', 'bom', None),
+    ('\ufffe', 'broken', None), ('\u200b', 'broken', None), ('if true:\n', 'broken', None), ('?', 'broken', None),
+]
+FETCH_TEXT_KIND = {t: (k, v) for t, k, v in FETCH_TEXTS}
+MID_TEXT = "midv = 1\ninclude 'x.bare'\nmidw = 2\n"
+# positions of the include: (id, body, globals that must be set when the include went through)
+FETCH_POS = [
+    ('top', "aa = 1\ninclude 'x.bare'\nbb = 2", {'aa': 1.0, 'bb': 2.0}),
+    ('first', "include 'x.bare'\nbb = 2", {'bb': 2.0}),
+    ('system', "aa = 1\ninclude <x.bare>\nbb = 2", {'aa': 1.0, 'bb': 2.0}),
+    ('second', "include 'ok.bare'\ninclude 'x.bare'\nbb = 2", {'okv': 1.0, 'bb': 2.0}),
+    ('before-other', "include 'x.bare'\ninclude 'ok.bare'\nbb = 2", {'okv': 1.0, 'bb': 2.0}),
+    ('twice', "include 'x.bare'\nbb = 1\ninclude 'x.bare'\nbb = bb + 1", {'bb': 2.0}),
+    ('infn', "function ld():\n    include 'x.bare'\n    return 'loaded'\nendfunction\nbb = if(ld() == 'loaded', 2, 0)", {'bb': 2.0}),
+    ('infn-twice', "function ld():\n    include 'x.bare'\n    return 1\nendfunction\nbb = ld() + ld()", {'bb': 2.0}),
+    ('nested', "include 'mid.bare'\nbb = 2", {'midv': 1.0, 'midw': 2.0, 'bb': 2.0}),
+    ('loop', "bb = 0\nfor ii in arrayNew(1, 2):\n    include 'x.bare'\n    bb = bb + 1\nendfor", {'bb': 2.0}),
+    ('cond', "if true:\n    include 'x.bare'\nendif\nbb = 2", {'bb': 2.0}),
+    # systemFetch: the answer of the fetchFn IS the value
+    ('sysfetch', "rr = systemFetch('x.bare')\nbb = 2", {'bb': 2.0}),
+    ('sysfetch-array', "rr = systemFetch(arrayNew('x.bare', objectNew('url', 'x.bare')))\nbb = 2", {'bb': 2.0}),
+    ('sysfetch-fn', "function gf():\n    return systemFetch('x.bare')\nendfunction\nrr = gf()\nbb = 2", {'bb': 2.0}),
+]
+FETCH_POS_BY_ID = {p[0]: p for p in FETCH_POS}
+FETCH_SIGS = ['zero', 'two', 'kwonly']
+
+
+def make_fetch(fspec, mods, calls):
+    """['text', s] | ['strsub', s] | ['none'] | ['raise', exc spec] | ['sig', kind] -> fetchFn (the answer is for x.bare)"""
+    kind = fspec[0]
+
+    def answer():
+        if kind == 'text':
+            return fspec[1]
+        if kind == 'strsub':
+            return StrSub(fspec[1])
+        if kind == 'none':
+            return None
+        raise make_exc(fspec[1], mods)
+
+    def other(url):
+        return 'okv = 1\n' if url.endswith('ok.bare') else MID_TEXT if url.endswith('mid.bare') else None
+
+    if kind == 'sig':
+        if fspec[1] == 'zero':
+            return lambda: 'incv = 7\n'
+        if fspec[1] == 'two':
+            return lambda req, more: 'incv = 7\n'
+        return lambda *, req: 'incv = 7\n'
+
+    def fetch_fn(req):
+        url = req['url']
+        calls.append(url)
+        return answer() if url.endswith('x.bare') else other(url)
+    return fetch_fn
+
+
+def no_bom(v):
+    """(whether a byte order mark belongs to the text is not a matter of error containment)"""
+    if isinstance(v, list):
+        return [no_bom(x) for x in v]
+    return v.replace('\ufeff', '') if isinstance(v, str) else v
+
+
+def fetch_expect(fspec):
+    """-> 'fail' | 'broken' | 'noop' | 'assign'"""
+    if fspec[0] in ('none', 'raise', 'sig'):
+        return 'fail', None
+    return FETCH_TEXT_KIND[fspec[1]]
+
+
+def hostfetch_failures(mods, case):
+    """one host-fetch case: 1-3 steps (position of the include, answer of the fetchFn), on fresh or shared options
+    -> [(oracle, expected, actual)]"""
+    lib = mods['library'].SCRIPT_FUNCTIONS
+    cfg = case['config']
+    logkind = case.get('logkind', 'list')
+    sees = cfg['logFn'] and logkind in ('list', 'returns')
+    shared = None
+    bad = []
+    for six, step in enumerate(case['steps']):
+        pid, body, want_g = FETCH_POS_BY_ID[step['pos']]
+        fspec = step['fetch']
+        kind, incv = fetch_expect(fspec)
+        text = "systemLog('before')\n" + body + "\nsystemLog('END')\nreturn 'done'\n"
+        calls = []
+        log = []
+        if case.get('shared') and shared is not None:
+            options, g = shared
+            options['fetchFn'] = make_fetch(fspec, mods, calls)
+            if cfg['logFn']:
+                options['logFn'] = hb_logfn(logkind, log)
+        else:
+            g = {}
+            options = hb_options(cfg, logkind, log, g, maxStatements=2000, fetchFn=make_fetch(fspec, mods, calls))
+            if step.get('urlFn'):               # a urlFn that answers the URL itself / a str subclass / a longer URL
+                options['urlFn'] = {'identity': lambda url: url, 'strsub': StrSub, 'prefix': lambda url: 'dir/' + url}[step['urlFn']]
+            if step.get('systemPrefix'):
+                options['systemPrefix'] = 'sys/'
+            shared = (options, g)
+        before = g.get('incv', ABSENT)
+        for key in ('bb', 'rr', 'midw'):
+            g.pop(key, None)
+        out = guarded(mods, lambda: mods['runtime'].execute_script(parsed(mods, text), options))      # pylint: disable=cell-var-from-loop
+        where = {'step': six}
+        if logfn_own(out):
+            return bad
+        if out[0] == 'escape':
+            return [('host-fetch-escape', 'a value or BareScriptRuntimeError/BareScriptParserError', [where] + list(out))]
+        if pid.startswith('sysfetch'):
+            # the call evaluates to what the fetchFn answered (null if it failed), no failure is logged, execution continues
+            one = None if kind == 'fail' else fspec[1]
+            want = [one, one] if pid == 'sysfetch-array' else one
+            if out_canon(out, lib) != ['ok', 'done'] or g.get('bb') != 2.0 or no_bom(g.get('rr', ABSENT)) != no_bom(want) or fail_names(log):
+                bad.append(('fetch-answer-is-the-value', [['ok', 'done'], want], [where, out_canon(out, lib), deep(g.get('rr', ABSENT), lib), fail_names(log)]))
+            continue
+        if kind == 'fail':
+            if out[0] != 'rt':                  # (unchanged code: 'Include of "x.bare" failed'; any BareScriptRuntimeError is documented)
+                bad.append(('documented-exception-expected', ['rt', 'Include of "x.bare" failed'], [where] + out_canon(out, lib)))
+            continue
+        if kind == 'bom' and out[0] == 'ok':
+            kind, incv = ('assign', 7.0) if 'incv' in fspec[1] else ('noop', None)        # a tolerant include: the text without the mark
+        if kind in ('broken', 'bom'):
+            if out[0] != 'parser':
+                bad.append(('documented-exception-expected', ['parser', 'Included from "x.bare"'], [where] + out_canon(out, lib)))
+            continue
+        got_g = {k: g.get(k, ABSENT) for k in want_g}
+        if out_canon(out, lib) != ['ok', 'done'] or got_g != want_g or (sees and visible(log, False) != ['before', 'END']):
+            bad.append(('include-then-continue', [['ok', 'done'], want_g, ['before', 'END']], [where, out_canon(out, lib), deep(got_g, lib), log[-4:]]))
+        want_incv = before if kind == 'noop' else incv            # (incv = <a failing call>: null)
+        if g.get('incv', ABSENT) != want_incv:
+            bad.append(('include-effect', want_incv, [where, deep(g.get('incv', ABSENT), lib)]))
+        if not sees and log:
+            bad.append(('config-changes-log', [], log[-4:]))
+    return bad
+
+
+def hfetch_cases(ctx, rng, n_random):
+    bare, msgs, _ = exc_pool()
+    answers = [['text', t] for t, _, _ in FETCH_TEXTS] + [['strsub', t] for t, _, _ in FETCH_TEXTS[:8] + FETCH_TEXTS[21:24]] + [['none']] + \
+        [['sig', k] for k in FETCH_SIGS]
+    raising = [['raise', e] for e in bare + msgs]
+    cases = []
+    # every answer at top level and inside a function, debug on and off
+    for ix, ans in enumerate(answers + raising):
+        for pid in ('top', 'infn') if ans in answers else ('top',):
+            cases.append({'kind': 'hostfetch', 'steps': [{'pos': pid, 'fetch': ans}], 'config': HB_EXTRA[(ix + (pid == 'infn')) % 2]})
+    # every position x every configuration with the degenerate answers
+    core = [['text', ''], ['text', '\n'], ['text', '\ufeff'], ['none'], ['text', ' '], ['strsub', ''], ['raise', ['exc', 'MemoryError', []]],
+            ['text', 'incv = 7'], ['text', '# c'], ['raise', ['exc', 'StrRaisesError', []]]]
+    for pix, pos in enumerate(FETCH_POS):
+        for cix, cfg in enumerate(HB_EXTRA):
+            picks = core if not ctx.quick else [core[(pix + cix) % len(core)], core[0]]
+            for ans in picks:
+                cases.append({'kind': 'hostfetch', 'steps': [{'pos': pos[0], 'fetch': ans}], 'config': cfg})
+    # histories: 2-3 includes in a row (fresh or shared options), one answer after another, urlFn / systemPrefix present
+    for _ in range(n_random):
+        steps = []
+        for _ in range(rng.choice([1, 2, 2, 3])):
+            step = {'pos': rng.choice(FETCH_POS)[0], 'fetch': rng.choice(answers if rng.random() < 0.75 else raising)}
+            if rng.random() < 0.2:
+                step['urlFn'] = rng.choice(['identity', 'strsub', 'prefix'])
+            if rng.random() < 0.2:
+                step['systemPrefix'] = True
+            steps.append(step)
+        case = {'kind': 'hostfetch', 'steps': steps, 'config': rng.choice(HB_EXTRA)}
+        if len(steps) > 1 and rng.random() < 0.5:
+            case['shared'] = True
+        kind = rng.choice(LOG_KINDS)
+        if kind != 'list' and case['config']['logFn']:
+            case['logkind'] = kind
+        cases.append(case)
+    return cases
+
+
+CYCLE_FINDING = 'F35'
+
+
+def include_cycle_run(mods, case):
+    """a fetchFn that answers every URL with a script that includes the next file (a cycle of `period` files): every level is one
+    statement and one interpreter frame of the include statement, which has no call wrapper around it"""
+    period = int(case.get('period', 1))
+
+    def fetch_fn(req):
+        n = int(req['url'].split('.')[0][1:] or 0)
+        return f"cv = {n}\ninclude 'c{(n + 1) % period}.bare'\n"
+    options = {'globals': {}, 'fetchFn': fetch_fn, 'maxStatements': int(case['max'])}
+    return guarded(mods, lambda: mods['runtime'].execute_script(parsed(mods, "include 'c0.bare'\nreturn 'done'\n"), options))
+
+
+FINDING_MATCHERS[CYCLE_FINDING] = lambda w: w.get('input', {}).get('kind') == 'hostfetch-cycle'
+
+
+def stream_host_fetch(ctx, mods, n_random, name='host-fetch'):
+    st = ctx.stream(name, f'what the fetchFn of the host answers for an included / fetched URL: {len(FETCH_TEXTS)} texts (the empty string, blanks, '
+                          'every line terminator alone, comment only, return only, a byte order mark alone / in front of a script / after a '
+                          'blank / at the end / inside a string literal, NUL, zero-width space, a dangling continuation, unterminated blocks, '
+                          'scripts without a final newline / with CRLF / indented), the same as str subclass, None, a fetchFn raising every '
+                          'builtin Exception class without a message and the common ones with every kind of message (and classes whose '
+                          f'__str__ raises), a fetchFn with a wrong signature x {len(FETCH_POS)} positions (top level, first statement, system '
+                          'include, second / first of two includes in one statement, twice, inside a script function (once / twice), '
+                          'inside an included file, inside a loop / a block, systemFetch of a URL / an array / in a function) x debug '
+                          'True/False/absent x logFn supplied/absent x kind of logFn x urlFn / systemPrefix present x histories of 1-3 '
+                          'scripts on fresh or SHARED options. Host-only inputs (not expressible in the Lean model): implementation-side '
+                          'oracles from the property - no escape; None / raising => BareScriptRuntimeError "Include of ... failed"; text '
+                          'that does not parse => BareScriptParserError "Included from ..."; any other str is executed (empty => nothing '
+                          'happens) and the run reaches END with the expected globals; systemFetch evaluates to the answer. non-trivial = all')
+    rng = ctx.rng(name)
+    for case in hfetch_cases(ctx, rng, n_random):
+        bad = hostfetch_failures(mods, case)
+        kinds = sorted({fetch_expect(s['fetch'])[0] for s in case['steps']})
+        st.case(case, nontrivial=True, tags=['answer-' + k for k in kinds] + ['pos-' + s['pos'] for s in case['steps']] +
+                [cfg_tag(case['config']), 'steps-' + str(len(case['steps'])), 'shared' if case.get('shared') else 'fresh', 'log-' + case.get('logkind', 'list')])
+        for oracle, want, got in bad:
+            ctx.witness(oracle, case, want, got)
+    # an include cycle: within the statement budget the run ends with 'Exceeded maximum script statements'; with a larger budget
+    # (the default is 1e9) the unchanged code lets RecursionError escape - candidate finding, a witness once it is listed
+    for case in ({'kind': 'hostfetch-cycle', 'period': 1, 'max': 300}, {'kind': 'hostfetch-cycle', 'period': 2, 'max': 300},
+                 {'kind': 'hostfetch-cycle', 'period': 1, 'max': 100000}, {'kind': 'hostfetch-cycle', 'period': 3, 'max': 100000}):
+        out = include_cycle_run(mods, case)
+        st.case(case, nontrivial=out[0] == 'rt', tags=['include-cycle', 'out-' + out[0]])
+        if out[0] == 'escape' and (case['max'] <= 300 or any(f.get('id') == CYCLE_FINDING and f.get('status') == 'known' for f in fw.load_findings(ID))):
+            ctx.witness('host-fetch-escape', case, 'BareScriptRuntimeError', list(out))
+        elif out[0] == 'escape' and case['period'] == 1:
+            ctx.notes.append(f'host-fetch: a file that includes itself, maxStatements {case["max"]}: {out[1]} escapes execute_script (one frame of '
+                             f'_execute_script_helper per level, runtime.py:143, no wrapper at statement level): candidate finding {CYCLE_FINDING}, '
+                             'not counted as a violation until listed')
 
 
 # ---------------------------------------------------------------------------------------------------------------------
@@ -1856,6 +2762,8 @@ def streams(ctx):
     stream_text(ctx, mods, ctx.scale(len(ADV_LINES) + 150, len(ADV_LINES) + 6000))
     stream_deep(ctx, mods, ctx.scale(150, 3000))
     stream_hostile(ctx, mods, ctx.scale(1200, 20000))
+    stream_host_failure(ctx, mods, ctx.scale(3000, 60000))
+    stream_host_fetch(ctx, mods, ctx.scale(2000, 40000))
 
 
 def disagreement_known(d, known):
@@ -1866,6 +2774,8 @@ def search(ctx):
     """something no longer checks and no witness yet: larger budgets of the implementation-only oracles"""
     mods = fw.impl()
     try:
+        stream_host_failure(ctx, mods, 6000, name='search-host-failure')
+        stream_host_fetch(ctx, mods, 4000, name='search-host-fetch')
         stream_deep(ctx, mods, 1500, name='search-deep')
         stream_hostile(ctx, mods, 4000, name='search-hostile')
         if not ctx.witnesses:
@@ -1933,6 +2843,12 @@ def replay(witness):
             return [x for x in ld if not x.startswith('BareScript: ')] != [x for x in ln_ if not x.startswith('BareScript: ')] \
                 or bool(fail_lines(ln_)) or (od[0], str(od[1])) != (on[0], str(on[1]))
         return False
+    if kind == 'hostfail':
+        return bool(hostfail_failures(mods, inp))
+    if kind == 'hostfetch':
+        return bool(hostfetch_failures(mods, inp))
+    if kind == 'hostfetch-cycle':
+        return include_cycle_run(mods, inp)[0] == 'escape'
     if kind == 'deep':
         res = deep_run(mods, inp['spec'])
         return res is not None and res[0][0] == 'escape'
